@@ -59,9 +59,14 @@ def run(ctx):
         calls = {c for c in calls if not re.search(r'Clone>::clone$|::clone$', c)}
         okf = fields <= {want[fname], 'kind'} and want[fname] in fields and not calls
         ctx.ob('C15.1', epe, 'payload-untouched:' + fname, okf, 'ProviderEvent.%s is built from parsed.%s only (fields read: %s%s)' % (fname, want[fname], sorted(fields), ', calls: %s' % sorted(calls) if calls else ''), line=aggs[0][2].get('ln'))
+    from ..inline import inline_calls as _inl15
+    observers = {}
     for nm in ('push_sse_str', 'finish'):
         f = P.body(PIPE + nm)
+        # a shared "map, number, emit, advance" tail extracted into a private method of the pipe is spliced back in
+        f = _inl15(P, f, lambda body, callee: 'OpenResponsesSsePipe' in callee and not re.search(r'::(push_sse_str|push_bytes|finish|emit_transport_error|new)$', callee), depth=1, note=ctx.note)
         ctx.touch(f)
+        observers[nm] = (f, f.calls(r'ToolCallCollector::observe$'))
         maps = f.calls(r'EventFrameMapper::map$')
         if len(maps) != 1:
             raise CheckError('C15.1: %s is expected to call mapper.map once (found %d)' % (nm, len(maps)))
@@ -134,6 +139,15 @@ def run(ctx):
         okadv = len(adv) == 1 and not f.in_loop(adv[0][0]) and all(f.dom(e.bb, adv[0][0]) for e in emits)
         ctx.ob('C15.2', f, 'advance-by-count', okadv, '*self.seq is advanced once by the frame count, after emit_all (%d site)' % len(adv), line=adv[0][1] if adv else f.line)
     newp = P.fn(PIPE + 'new', required=False)
+    # siblings agree on feeding the tool-call collector: every parsed event the one hands to collector.observe the other
+    # hands too (a call whose output_item.done is only flushed by finish() at the end of a [DONE]-less stream must be
+    # collected like any other, or it is logged but never executed and never answered)
+    obs_n = {nm: len(v[1]) for nm, v in observers.items()}
+    same_obs = len(set(bool(n_) for n_ in obs_n.values())) == 1
+    for nm, (f_, obs_) in observers.items():
+        in_loop = all(f_.in_loop(o_.bb) for o_ in obs_)
+        ctx.ob('C15.2', f_, 'siblings-feed-collector', same_obs and in_loop, '%s hands parsed events to ToolCallCollector::observe at %d site(s); sibling counts: %s' % (nm, len(obs_), obs_n) +
+               ('' if same_obs else ' — the siblings DISAGREE: tool calls decoded by the one that does not observe are never executed or answered'), line=obs_[0].line if obs_ else f_.line)
     if newp is not None:
         ctx.touch(newp)
         aggs = newp.aggregates(r'OpenResponsesSsePipe$')
